@@ -299,6 +299,9 @@ func setPtraceOption(pid int) error {
 // kill all tracee according to pids
 func killAll(pgid int) {
 	unix.Kill(-pgid, unix.SIGKILL)
+	// the process group only exists once the child has called setsid; if the
+	// run is cancelled before that the child itself must be signalled
+	unix.Kill(pgid, unix.SIGKILL)
 }
 
 // collect died child processes
